@@ -12,7 +12,9 @@ for d in sys.argv[1:]:
         and (str(e.get('existing_tests_touched_pkgs', '')).startswith('pass') or str(e.get('existing_suite', '')).startswith('pass'))
     if not ok:
         print('NOT CONFIRMED', d, {k: str(v)[:80] for k, v in e.items() if k.startswith(('demo', 'build', 'existing'))}); continue
-    sid = '%s-%s%s' % (m['property'], 'b' if 'seed-out-b' in d else '', os.path.basename(d))
+    import re
+    rm = re.search(r'seed-out-([a-z])/', d + '/')
+    sid = '%s-%s%s' % (m['property'], rm.group(1) if rm else '', os.path.basename(d))
     dst = '/verif/seeded/' + sid
     old_hist = None
     try:
